@@ -106,23 +106,23 @@ fn collect(world: &World, revset: &dyn jj_lib::revset::Revset) -> Result<Vec<i64
     Ok(out)
 }
 
-fn eval_both(world: &World, repo: &dyn Repo, e: &Value) -> (Value, Value) {
+fn eval_both(world: &World, repo: &dyn Repo, e: &Value) -> (Value, String, Value, String) {
     let expr = build(world, e);
-    let opt = match expr.clone().evaluate(repo) {
+    let (opt, opt_err) = match expr.clone().evaluate(repo) {
         Ok(rs) => match collect(world, rs.as_ref()) {
-            Ok(v) => json!(v),
-            Err(m) => json!({"err": m}),
+            Ok(v) => (json!(v), String::new()),
+            Err(m) => (json!([]), m),
         },
-        Err(err) => json!({"err": format!("{err}")}),
+        Err(err) => (json!([]), format!("{err}")),
     };
-    let unopt = match expr.evaluate_unoptimized(repo) {
+    let (unopt, unopt_err) = match expr.evaluate_unoptimized(repo) {
         Ok(rs) => match collect(world, rs.as_ref()) {
-            Ok(v) => json!(v),
-            Err(m) => json!({"err": m}),
+            Ok(v) => (json!(v), String::new()),
+            Err(m) => (json!([]), m),
         },
-        Err(err) => json!({"err": format!("{err}")}),
+        Err(err) => (json!([]), format!("{err}")),
     };
-    (opt, unopt)
+    (opt, opt_err, unopt, unopt_err)
 }
 
 /// Builds the case's commits (split over `ntx` transactions, optionally after
@@ -217,9 +217,9 @@ fn run_case(out: &mut Out, case: usize, c: &Value, rng: &mut Rng, reload: bool) 
     let repo = if reload { world.reload_from_disk(repo.operation()) } else { repo };
     let real_vh = view_heads(&world, repo.as_ref());
     for e in c["exprs"].as_array().unwrap() {
-        let (opt, unopt) = eval_both(&world, repo.as_ref(), e);
+        let (opt, opt_err, unopt, unopt_err) = eval_both(&world, repo.as_ref(), e);
         out.emit(&json!({"op":"revset","case":case,"par":par,"vh":real_vh,"ts":ts,"e":e,
-                         "opt":opt,"unopt":unopt,"pad":pad}));
+                         "opt":opt,"opt_err":opt_err,"unopt":unopt,"unopt_err":unopt_err,"pad":pad}));
     }
 }
 
